@@ -8,13 +8,18 @@ Open Scope Z_scope.
    C08 checks the same inequality on every record for the cross-radix and the big normalisers):
    a normaliser at offset 0 returns `length r0` limbs whose value equals the value of the input on the torus up to one
    unit of the last output limb, exactly when nothing is truncated, and with balanced digits when the radix is kept. *)
-Definition normalize_value_ok (nrm : Z -> Z -> list Z -> list Z -> option (list Z)) (H R : Z) : Prop :=
-  forall rb ab a r0 out, 1 <= rb <= R -> 1 <= ab <= R -> Forall (fun x => Z.abs x <= H) a ->
+Definition normalize_value_ok_dom (D : Z -> Prop) (nrm : Z -> Z -> list Z -> list Z -> option (list Z)) (H : Z) : Prop :=
+  forall rb ab a r0 out, D rb -> D ab -> Forall (fun x => Z.abs x <= H) a ->
     nrm rb ab a r0 = Some out ->
     length out = length r0 /\ (rb = ab -> Forall (in_range rb) out) /\
     forall P, zn (length r0) * rb <= P -> zn (length a) * ab <= P ->
       tor_abs P (val_scaled P rb out - val_scaled P ab a) <= 2 ^ (P - zn (length r0) * rb) /\
       (zn (length a) * ab <= zn (length r0) * rb -> tor_abs P (val_scaled P rb out - val_scaled P ab a) = 0).
+
+(* every radix in [1, R]; the theorems below are stated over an arbitrary radix domain D so that they can also be instantiated with
+   the domain {b} (same radix everywhere), where C08 proves the statement (Proofs/EncC08.v) *)
+Definition normalize_value_ok (nrm : Z -> Z -> list Z -> list Z -> option (list Z)) (H R : Z) : Prop :=
+  normalize_value_ok_dom (fun x => 1 <= x <= R) nrm H.
 
 Definition lvsum (P b : Z) (n : nat) (xs : list (list Z)) : Z := fold_right (fun X acc => lval P b n X + acc) 0 xs.
 
@@ -28,13 +33,16 @@ Proof.
 Qed.
 
 Section SkCoeff.
-Variables wb b pb R : Z.
+Variables wb b pb : Z.
+Variable D : Z -> Prop.
 Variables size psize ell : nat.
-Hypothesis normalize_value_ok_small : normalize_value_ok (fun rb ab => normalize 64 rb ab 0) (2 ^ 62) R.
-Hypothesis normalize_value_ok_big : normalize_value_ok (bnorm wb) (2 ^ (wb - 2)) R.
+Hypothesis normalize_value_ok_small : normalize_value_ok_dom D (fun rb ab => normalize 64 rb ab 0) (2 ^ 62).
+Hypothesis normalize_value_ok_big : normalize_value_ok_dom D (bnorm wb) (2 ^ (wb - 2)).
 Hypothesis Hwb : 2 <= wb.
-Hypothesis Hb : 1 <= b <= R.
-Hypothesis Hpb : 1 <= pb <= R.
+Hypothesis Hb : D b.
+Hypothesis Hpb : D pb.
+Hypothesis Hb_pos : 1 <= b.
+Hypothesis Hpb_pos : 1 <= pb.
 Hypothesis Hell : (ell < size)%nat.
 
 Variables Bp E M : Z.
